@@ -261,7 +261,11 @@ func (c *siteCollector) observe(in ssa.Instruction, st *State, depth int) {
 	case *ssa.Index:
 		base := e.eval(st, x.X)
 		idx := e.eval(st, x.Index)
-		c.bounds(in, st, "index", base.name()+"["+idx.name()+"]", idx, e.lenTerm(st, base), true)
+		limit := e.lenTerm(st, base)
+		if at, ok := x.X.Type().Underlying().(*types.Array); ok {
+			limit = avInt(at.Len())
+		}
+		c.bounds(in, st, "index", base.name()+"["+idx.name()+"]", idx, limit, true)
 	case *ssa.Lookup:
 		// map lookup never panics; string index does
 		if _, isMap := x.X.Type().Underlying().(*types.Map); !isMap {
